@@ -99,4 +99,130 @@ theorem writesGoWith_fixed_cols_all (d : Nat) :
   rw [hr, ← tri_eq]
   simpa [jLo, ctInit] using this
 
+/-! ### regression witness for F-HLLE-CT (independent of the generated file) -/
+
+/-- the pre-fix recurrence `ct += ct + d - j` at `d = 3` writes column 12 of a 10-column matrix -/
+theorem prefix_update_writes_out_of_range :
+    (writesGoWith (fun ct d j => ct + (ct + d - j)) 3 (jHi 3 - jLo).toNat jLo ctInit).map (·.1)
+      = [4, 5, 6, 7, 8, 12] := by decide
+
+/-! ### sizes -/
+
+theorem dpExpr_natCast (d : Nat) : dpExpr (d : Int) = ((d * (d + 1) / 2 : Nat) : Int) := by
+  unfold dpExpr
+  push_cast
+  rfl
+
+theorem hlleDp_eq (d : Nat) : hlleDp d = d * (d + 1) / 2 := by
+  unfold hlleDp
+  rw [dpExpr_natCast]
+  exact Int.toNat_natCast _
+
+theorem hlleCols_eq (d : Nat) : hlleCols d = 1 + d + d * (d + 1) / 2 := by
+  unfold hlleCols colsExpr
+  rw [dpExpr_natCast]
+  omega
+
+/-! ### source columns: independent of the `ct` update -/
+
+theorem writesGoWith_src (upd : Int → Int → Int → Int) (d : Nat) : ∀ (r j : Nat) (ct : Int), j + r ≤ d →
+    ∀ w ∈ writesGoWith upd d r (j : Int) ct,
+      1 ≤ w.2.1 ∧ w.2.1 ≤ (d : Int) ∧ 1 ≤ w.2.2 ∧ w.2.2 ≤ (d : Int) := by
+  intro r
+  induction r with
+  | zero => intro j ct _ w hw; simp [writesGoWith] at hw
+  | succ r ih =>
+    intro j ct h w hw
+    simp only [writesGoWith, List.mem_append, List.mem_map, List.mem_range] at hw
+    rcases hw with ⟨pi, hpi, rfl⟩ | hw
+    · simp only [pHi, pLo, srcA, srcB] at hpi ⊢
+      omega
+    · have hj : ((j : Int) + 1) = ((j + 1 : Nat) : Int) := by push_cast; rfl
+      rw [hj] at hw
+      exact ih (j + 1) _ (by omega) w hw
+
+/-! ### the three component facts and `hlleIndexErr = none`, given the repaired update -/
+
+section Fixed
+variable (hfix : ∀ ct d j, ctUpdate ct d j = ct + (d - j))
+include hfix
+
+theorem hlleWrites_eq_fixed (d : Nat) :
+    hlleWrites d = writesGoWith ctFixed d (jHi d - jLo).toNat jLo ctInit := by
+  have hupd : ctUpdate = ctFixed := by
+    funext ct d j
+    exact hfix ct d j
+  unfold hlleWrites
+  rw [hlleWritesGo_eq, hupd]
+
+theorem hlleWrites_cols (d : Nat) :
+    (hlleWrites d).map (·.1) = (List.range (d * (d + 1) / 2)).map fun c => ((1 + d + c : Nat) : Int) := by
+  rw [hlleWrites_eq_fixed hfix, writesGoWith_fixed_cols_all]
+
+/-- every written column lies in `[1+d, hlleCols d)` -/
+theorem hlleWrites_col_range (d : Nat) : ∀ w ∈ hlleWrites d, 1 + (d : Int) ≤ w.1 ∧ w.1 < (hlleCols d : Int) := by
+  intro w hw
+  have hm : w.1 ∈ (hlleWrites d).map (·.1) := List.mem_map_of_mem hw
+  rw [hlleWrites_cols hfix, List.mem_map] at hm
+  obtain ⟨c, hc, hcw⟩ := hm
+  rw [List.mem_range] at hc
+  rw [hlleCols_eq, ← hcw]
+  omega
+
+/-- both source columns of every write are tangent columns `[1, d]` -/
+theorem hlleWrites_src_range (d : Nat) : ∀ w ∈ hlleWrites d,
+    1 ≤ w.2.1 ∧ w.2.1 ≤ (d : Int) ∧ 1 ≤ w.2.2 ∧ w.2.2 ≤ (d : Int) := by
+  intro w hw
+  rw [hlleWrites_eq_fixed hfix] at hw
+  have hr : (jHi (d : Int) - jLo).toNat = d := by
+    simp only [jHi, jLo]
+    omega
+  rw [hr] at hw
+  have h0 : jLo = ((0 : Nat) : Int) := rfl
+  rw [h0] at hw
+  exact writesGoWith_src ctFixed d d 0 ctInit (by omega) w hw
+
+/-- every product column `[1+d, hlleCols d)` is written -/
+theorem hlleWrites_all_written (d : Nat) (c : Nat) (h1 : 1 + d ≤ c) (h2 : c < hlleCols d) :
+    ∃ w ∈ hlleWrites d, w.1 = (c : Int) := by
+  have hm : (c : Int) ∈ (hlleWrites d).map (·.1) := by
+    rw [hlleWrites_cols hfix, List.mem_map]
+    rw [hlleCols_eq] at h2
+    refine ⟨c - (1 + d), List.mem_range.2 (by omega), ?_⟩
+    congr 1
+    omega
+  rw [List.mem_map] at hm
+  obtain ⟨w, hw, hwc⟩ := hm
+  exact ⟨w, hw, hwc⟩
+
+theorem hlleIndexErr_none (d : Nat) : hlleIndexErr d = none := by
+  have h1 : (hlleWrites d).find? (fun w => decide (w.1 < 0 ∨ ((hlleCols d : Nat) : Int) ≤ w.1)) = none := by
+    rw [List.find?_eq_none]
+    intro w hw
+    have := hlleWrites_col_range hfix d w hw
+    simp only [decide_eq_true_eq]
+    omega
+  have h2 : (hlleWrites d).find? (fun w => decide (w.1 < 1 + (d : Int) ∨ w.2.1 < 1 ∨ (d : Int) < w.2.1
+      ∨ w.2.2 < 1 ∨ (d : Int) < w.2.2)) = none := by
+    rw [List.find?_eq_none]
+    intro w hw
+    have := hlleWrites_col_range hfix d w hw
+    have := hlleWrites_src_range hfix d w hw
+    simp only [decide_eq_true_eq]
+    omega
+  have h3 : (List.range (hlleCols d)).find? (fun c => decide (1 + d ≤ c)
+      && !((hlleWrites d).any fun w => w.1 == (c : Int))) = none := by
+    rw [List.find?_eq_none]
+    intro c hc
+    rw [List.mem_range] at hc
+    by_cases hle : 1 + d ≤ c
+    · obtain ⟨w, hw, hwc⟩ := hlleWrites_all_written hfix d c hle hc
+      have : ((hlleWrites d).any fun w => w.1 == (c : Int)) = true :=
+        List.any_eq_true.2 ⟨w, hw, by simp [hwc]⟩
+      simp [this]
+    · simp [hle]
+  simp only [hlleIndexErr, h1, h2, h3]
+
+end Fixed
+
 end TapkeeVerif.LocallyLinear
